@@ -11,6 +11,7 @@ import Peppi.SlppBytes
 import Peppi.TarCut
 import Peppi.SlppCut
 import Peppi.PeppiJson
+import Peppi.SlppConsistent
 set_option linter.unusedVariables false
 namespace Peppi.Props.C18
 
@@ -101,5 +102,26 @@ theorem slppRead_written_json2 (C : Codec KVs) (T : TextOracle) (g : PGame KVs) 
     (hs : SizesOK C.withJson g startBytes endBytes) (skip : Bool) :
     slppRead C.withJson T skip (slppWrite C.withJson g startBytes endBytes) = .ok (if skip then { g with frames := none } else g) :=
   _root_.Peppi.slppRead_written_json2 C T g startBytes endBytes hstart hend hgecko hs skip
+
+/- from `Peppi.SlppConsistent` -/
+theorem slppEntries_names_order {χ : Type} (C : Codec χ) (g : PGame χ) (sb : Bytes) (eb : Option Bytes)
+    (hend : eb.isSome = g.fend.isSome) :
+    (slppEntries C g sb eb).map (·.1) = entryNames g.fend.isSome g.gecko.isSome g.frames.isSome :=
+  _root_.Peppi.slppEntries_names_order C g sb eb hend
+
+/- from `Peppi.SlppConsistent` -/
+theorem slppEntries_consistent {χ : Type} (C : Codec χ) (T : TextOracle) (g : PGame χ) (sb : Bytes) (eb : Option Bytes)
+    (hstart : gameStart T sb = .ok g.start) (hend : eb.map gameEnd = g.fend.map Res.ok) :
+    let es := slppEntries C g sb eb
+    (∃ raw s, lookupEntry N_STARTR es = some raw ∧ gameStart T raw = .ok s ∧ lookupEntry N_STARTJ es = some (C.startJson s)) ∧
+    (∀ e, g.fend = some e → ∃ raw, lookupEntry N_ENDR es = some raw ∧ gameEnd raw = .ok e ∧ lookupEntry N_ENDJ es = some (C.endJson e)) ∧
+    (g.fend = none → lookupEntry N_ENDR es = none ∧ lookupEntry N_ENDJ es = none) ∧
+    (∃ txt, lookupEntry N_PEPPI es = some txt ∧ C.decPeppi txt = .ok ⟨true, g.hash, g.quirks⟩) :=
+  _root_.Peppi.slppEntries_consistent C T g sb eb hstart hend
+
+/- from `Peppi.SlppConsistent` -/
+theorem slppWrite_deterministic {χ : Type} (C : Codec χ) (g g' : PGame χ) (sb sb' : Bytes) (eb eb' : Option Bytes)
+    (h : g = g') (hs : sb = sb') (he : eb = eb') : slppWrite C g sb eb = slppWrite C g' sb' eb' :=
+  _root_.Peppi.slppWrite_deterministic C g g' sb sb' eb eb' h hs he
 
 end Peppi.Props.C18
